@@ -599,8 +599,11 @@ class CovarianceCounter:
             deltaX = self.xAvg - other.xAvg
             deltaY = self.yAvg - other.yAvg
             self.Ck += other.Ck + deltaX * deltaY * self.count / totalCount * other.count
-            self.xAvg = (self.xAvg * self.count + other.xAvg * other.count) / totalCount
-            self.yAvg = (self.yAvg * self.count + other.yAvg * other.count) / totalCount
+            # move the mean by the weighted difference (as Spark's Corr/Covariance merge does): equal means stay
+            # exactly equal and merging into an empty counter copies the other mean, where recomputing
+            # (xAvg * count + other.xAvg * other.count) / totalCount rounds, e.g. 0.1 * 3 / 3 != 0.1
+            self.xAvg -= deltaX * (other.count / totalCount)
+            self.yAvg -= deltaY * (other.count / totalCount)
             self.MkX += other.MkX + deltaX * deltaX * self.count / totalCount * other.count
             self.MkY += other.MkY + deltaY * deltaY * self.count / totalCount * other.count
             self.count = totalCount
